@@ -9,7 +9,7 @@ Ltac Zify.zify_post_hook ::= Z.to_euclidean_division_equations.
 Section Floating.
   Variables prec p : Z.
   Hypothesis Hprec : 0 < prec.
-  Hypothesis Hp : 2 <= p < 2 ^ prec.       (* implied by p <= maxCardinality (2^12, 2^24, 94906266) *)
+  Hypothesis Hp : 2 <= p <= 2 ^ prec.      (* p <= maxCardinality: Modular<float> 4096, Modular<float,double> 2^24 (= 2^prec, attained), Modular<double> 94906266 *)
 
   Lemma mf_reduce_spec x : residue p x (mf_reduce p x).
   Proof.
@@ -214,6 +214,9 @@ Section Ruint.
     - eapply residue_cong; [| apply ru_negin_spec; exact HR]. f_equal; lia.
     - eapply residue_cong; [| exact HR]. f_equal; lia.
   Qed.
+  (* floating sources (repaired body, fix-14): routed through Integer(a): EVERY integer-valued double / float *)
+  Theorem ru_init_float_correct prec a : exists r, ru_init K p (SF prec) a = Some r /\ residue p a r.
+  Proof. exact (ru_init_Integer_correct a). Qed.
   (* native integer sources (repaired body): every value of a type of at most 64 bits except INT64_MIN *)
   Theorem ru_init_int_correct T a :
     in_range T a -> - 2 ^ 63 < a < 2 ^ 64 -> (sg T = true -> a < 2 ^ 63) -> exists r, ru_init K p (SI T) a = Some r /\ residue p a r.
@@ -371,14 +374,11 @@ Section Extended.
     | SI T => (if prec =? 24 then 32 <=? bits T else bits T =? 64) = true /\ (sg T = false -> 0 <= a)
     | _ => False
     end.
-  Theorem ex_init_specialised_correct s a : ex_src_ok s a -> exists r, ex_init prec p s a = Some r /\ residue p a r.
+  (* the exact native specialisations (also the target of the generic template's forward for wide integral types) *)
+  Lemma ex_exact_correct sgn a : (sgn = false -> 0 <= a) -> exists r, ex_exact p sgn a = Some r /\ residue p a r.
   Proof.
-    pose proof (rem_bound a p ltac:(lia)) as [Hb [Hpos Hneg]]. pose proof (rem_cong a p ltac:(lia)) as Hc.
-    assert (residue p a (if Z.rem a p <? 0 then Z.rem a p + p else Z.rem a p)) as HR.
-    { destruct (Z.ltb_spec (Z.rem a p) 0); (split; [lia|]); [rewrite <- Hc; apply (cong_intro p _ _ 1); lia | auto]. }
-    destruct s as [T|sprec| |K|sgn]; cbn [ex_src_ok ex_init]; intros H; try contradiction;
-      try (eexists; split; [reflexivity|]; exact HR).
-    destruct H as [-> Hu]. destruct (sg T) eqn:HsT; eexists; (split; [reflexivity|]).
+    intros Hu. pose proof (rem_bound a p ltac:(lia)) as [Hb [Hpos Hneg]]. pose proof (rem_cong a p ltac:(lia)) as Hc.
+    unfold ex_exact. destruct sgn; eexists; (split; [reflexivity|]).
     - assert (residue p (Z.abs a) (Z.abs (Z.rem a p))) as HA.
       { split; [lia|]. destruct (Z.ltb_spec a 0).
         - replace (Z.abs (Z.rem a p)) with (Z.rem (- a) p) by (rewrite Z.rem_opp_l'; lia).
@@ -388,6 +388,15 @@ Section Extended.
       + eapply residue_cong; [| apply ex_negin_spec; exact HA]. f_equal; lia.
       + eapply residue_cong; [| exact HA]. f_equal; lia.
     - apply residue_mod; lia.
+  Qed.
+  Theorem ex_init_specialised_correct s a : ex_src_ok s a -> exists r, ex_init prec p s a = Some r /\ residue p a r.
+  Proof.
+    pose proof (rem_bound a p ltac:(lia)) as [Hb [Hpos Hneg]]. pose proof (rem_cong a p ltac:(lia)) as Hc.
+    assert (residue p a (if Z.rem a p <? 0 then Z.rem a p + p else Z.rem a p)) as HR.
+    { destruct (Z.ltb_spec (Z.rem a p) 0); (split; [lia|]); [rewrite <- Hc; apply (cong_intro p _ _ 1); lia | auto]. }
+    destruct s as [T|sprec| |K|sgn]; cbn [ex_src_ok ex_init]; intros H; try contradiction;
+      try (eexists; split; [reflexivity|]; exact HR).
+    destruct H as [-> Hu]. apply ex_exact_correct; auto.
   Qed.
 End Extended.
 
